@@ -380,6 +380,16 @@ func (s *grpcServer) Write(srv bytestream.ByteStream_WriteServer) error {
 		for {
 			req, err := srv.Recv()
 			if err == io.EOF {
+				if firstIteration {
+					// The client closed the stream without sending a single
+					// WriteRequest: there is no resource name, and no Put
+					// was started whose result the handler could wait for.
+					msg := "No WriteRequest received"
+					s.accessLogger.Printf("GRPC BYTESTREAM WRITE FAILED: %s", msg)
+					recvResult <- status.Error(codes.InvalidArgument, msg)
+					return
+				}
+
 				if cmp == casblob.Identity && resp.CommittedSize != size {
 					msg := fmt.Sprintf("Unexpected amount of data read: %d expected: %d",
 						resp.CommittedSize, size)
